@@ -11,14 +11,15 @@ package main
 // Oracles: C13 (no panic, no fatal error, no call longer than 2 s, no runaway allocation),
 // C17 (ImportKeys(Export(accounts)) == accounts).
 //
-// Containment.  Some inputs make the library recurse without bound ("fatal error: stack
-// overflow" cannot be recovered) or loop for ever while allocating, so the library is never
-// called in the harness process itself: the harness re-executes itself as a worker
+// Containment.  Before the repairs 722c622/cb15827 of /repo some inputs made the library recurse
+// without bound ("fatal error: stack overflow" cannot be recovered) or loop for ever while
+// allocating ("((" did both), so the library is never called in the harness process itself: the
+// harness re-executes itself as a worker
 // (environment variable OTRH_KEYFILE_WORKER), sends it one op per line and reads one result
 // line back.  A worker that dies or does not answer within 20 s is replaced.
 //   result STACKOVERFLOW  the worker died with "fatal error: stack overflow"
-//                         (the worker lowers the stack limit from 1 GB to 8 MB to get there fast)
-//   result HANG           the worker's heap passed 24 MB (all inputs are far smaller), or no
+//                         (the worker lowers the stack limit from 1 GB to 64 MB to get there fast)
+//   result HANG           the worker's heap passed 256 MB (the largest input is 2 MB), or no
 //                         answer within 20 s
 //   result PANIC          a Go panic, recovered by guard() inside the worker
 // The op and result formats are those of /verif/lean/Otr/DriverKeyFile.lean.
@@ -48,8 +49,8 @@ const (
 	kfWorkerEnv  = "OTRH_KEYFILE_WORKER"
 	kfSlow       = 2 * time.Second  // C13: no call may take longer
 	kfTimeout    = 20 * time.Second // the worker is killed after this
-	kfHeapLimit  = 24 << 20
-	kfStackLimit = 8 << 20
+	kfHeapLimit  = 256 << 20
+	kfStackLimit = 64 << 20
 )
 
 // ---------------------------------------------------------------------------------------------
@@ -67,21 +68,40 @@ func unhxGo(s string) []byte {
 }
 
 func kfSexpStr(v sexp.Value) string {
+	var sb strings.Builder
+	kfSexpWrite(&sb, v)
+	return sb.String()
+}
+
+// iterative along the chain of cons cells (a list may have a million items), recursive into items
+func kfSexpWrite(sb *strings.Builder, v sexp.Value) {
+	closing := 0
+	for {
+		c, isCons := v.(sexp.Cons)
+		if !isCons {
+			break
+		}
+		sb.WriteString("(")
+		kfSexpWrite(sb, c.First())
+		sb.WriteString(" . ")
+		closing++
+		v = c.Second()
+	}
 	switch t := v.(type) {
 	case nil:
-		return "<nil>"
+		sb.WriteString("<nil>")
 	case sexp.Snil:
-		return "()"
-	case sexp.Cons:
-		return "(" + kfSexpStr(t.First()) + " . " + kfSexpStr(t.Second()) + ")"
+		sb.WriteString("()")
 	case sexp.Sstring:
-		return "s:" + hx([]byte(string(t)))
+		sb.WriteString("s:" + hx([]byte(string(t))))
 	case sexp.Symbol:
-		return "y:" + hx([]byte(string(t)))
+		sb.WriteString("y:" + hx([]byte(string(t))))
 	case sexp.BigNum:
-		return fmt.Sprintf("#%X#", t.Value().(*big.Int))
+		fmt.Fprintf(sb, "#%X#", t.Value().(*big.Int))
+	default:
+		sb.WriteString("?")
 	}
-	return "?"
+	sb.WriteString(strings.Repeat(")", closing))
 }
 
 // what the next reads see after an UnreadByte: shows the position and bufio's lastByte
@@ -124,7 +144,12 @@ func kfKeyFields(k *otr3.DSAPrivateKey) string {
 }
 
 func kfSerFp(k *otr3.DSAPrivateKey) string {
-	ser := guard(func() string { return hx(k.Serialize()) })
+	// ImportKeys accepts files that leave numbers nil (pinned by /repo's tests); Serialize on a
+	// key without x dereferences the nil pointer, so it is not called then
+	ser := "n/a"
+	if k.PrivateKey.X != nil {
+		ser = guard(func() string { return hx(k.Serialize()) })
+	}
 	fp := guard(func() string {
 		f := k.PublicKey().Fingerprint()
 		if f == nil {
@@ -416,6 +441,7 @@ type kfRun struct {
 	w        *kfWorker
 	findings map[string]*kfWitness
 	slowest  time.Duration
+	slow     []string
 }
 
 func (k *kfRun) finding(prop, key, desc, input string) {
@@ -462,6 +488,7 @@ func (k *kfRun) op(op string, emit bool) string {
 	}
 	if took > kfSlow && res != "HANG" && res != "STACKOVERFLOW" {
 		k.finding("C13", "keyfile-slow", fmt.Sprintf("%s took %v", entry, took.Round(time.Millisecond)), kfShow(op))
+		k.slow = append(k.slow, fmt.Sprintf("%v %s", took.Round(time.Millisecond), kfShow(op)))
 	}
 	cls := "ok"
 	switch res {
@@ -470,17 +497,16 @@ func (k *kfRun) op(op string, emit bool) string {
 		k.finding("C13", "keyfile-panic:"+entry, entry+" panics: "+desc, kfShow(op))
 	case "STACKOVERFLOW", "FATAL":
 		cls = res
-		k.finding("C13", "keyfile-stackoverflow:"+entry, entry+": "+desc, kfShow(op))
+		k.finding("C13", "keyfile-stack-overflow", entry+": "+desc, kfShow(op))
 	case "HANG":
 		cls = res
-		if strings.HasPrefix(desc, "heap") {
-			k.finding("C13", "keyfile-hang:"+entry, entry+" does not terminate: "+desc, kfShow(op))
-		} else {
-			k.finding("C13", "keyfile-slow", entry+": "+desc, kfShow(op))
-		}
+		k.finding("C13", "keyfile-hang", entry+" does not terminate: "+desc, kfShow(op))
 	default:
-		if i := strings.Index(res, "ser=PANIC"); i >= 0 {
-			k.finding("C13", "keyfile-panic:Serialize-of-imported-key", "ImportKeys accepts a key file that leaves x nil; Serialize on the imported key is a nil pointer dereference", kfShow(op))
+		if strings.Contains(res, "ser=PANIC") || strings.Contains(res, "fp=PANIC") {
+			k.finding("C13", "keyfile-panic:Serialize/Fingerprint", "Serialize or Fingerprint of a parsed key panics", kfShow(op))
+		}
+		if name == "importkeys" && strings.Contains(res, "<nil>") {
+			k.g.dist["importkeys:accepted-with-nil-number"]++
 		}
 		switch {
 		case strings.HasPrefix(res, "none"), strings.HasPrefix(res, "false"):
@@ -604,7 +630,7 @@ func (g *gen) kfInt() *big.Int {
 	case 4:
 		return new(big.Int).Neg(new(big.Int).SetBytes(g.bytesN(1 + g.r.Intn(4))))
 	case 5:
-		return new(big.Int).SetBytes(g.bytesN(100 + g.r.Intn(60)))
+		return new(big.Int).SetBytes(g.bytesN(100 + g.r.Intn(29))) // at most 1024 bits
 	}
 	return new(big.Int).SetBytes(g.bytesN(1 + g.r.Intn(12)))
 }
@@ -868,7 +894,7 @@ func (k *kfRun) scenario() {
 			k.probe(g.kfGarbage(), g.r.Intn(3) == 0)
 		}
 	case c < 14: // nesting
-		d := []int{1, 2, 3, 10, 100, 1000, 5000}[g.r.Intn(7)]
+		d := []int{1, 2, 3, 10, 100, 254, 255, 256, 257, 258, 300, 1000, 5000}[g.r.Intn(13)]
 		switch g.r.Intn(4) {
 		case 0:
 			k.probe(kfNested(d, d, ""), true)
@@ -925,16 +951,25 @@ func (k *kfRun) scenario() {
 	}
 }
 
-// probes that are too large or too slow for the model: oracle only (nothing is emitted)
+// probes that are too large for the model: oracle only (nothing is emitted)
 func (k *kfRun) oracleOnly() {
-	// recursion depth: one Go stack frame chain per nesting level
-	for _, d := range []int{10000, 20000} {
-		k.op("sexpread "+hx(kfNested(d, d, "")), false)
-		k.op("importkeys "+hx(kfNested(d, d, "")), false)
+	mb := 1 << 20
+	for _, b := range [][]byte{
+		kfNested(mb, mb, ""),
+		kfNested(mb, 0, ""),
+		[]byte(strings.Repeat("(a ", mb/3)),
+		[]byte("(" + strings.Repeat("() ", mb/3) + ")"),
+		[]byte("(" + strings.Repeat("a ", mb/2) + ")"),
+		[]byte(strings.Repeat("a", mb)),
+		[]byte("\"" + strings.Repeat("a", mb)),
+		// big.Int.SetString is quadratic: 1 MB of digits take 3 s, 4 MB 50 s (reported, not probed)
+		[]byte("#" + strings.Repeat("1", mb/4) + "#"),
+		[]byte(strings.Repeat(" ", mb)),
+		[]byte("(privkeys " + strings.Repeat("(account (name a) (protocol b) (private-key (dsa (p #1#))))\n", 10000) + ")"),
+	} {
+		k.op("sexpread "+hx(b), false)
+		k.op("importkeys "+hx(b), false)
 	}
-	// DSAPrivateKey.Import: the constant-time modular exponentiation is cubic in the size of the numbers
-	big1 := strings.Repeat("F", 3000)
-	k.op("keyimport "+hx([]byte(fmt.Sprintf(" #%s# #01# #02# #01# #%s#", big1, big1))), false)
 }
 
 func init() {
@@ -967,6 +1002,7 @@ func init() {
 			wit[key] = map[string]interface{}{"count": f.count, "witness": f.input, "desc": f.desc}
 		}
 		extra["keyfile_findings"] = wit
+		extra["slow_calls"] = k.slow
 		extra["worker_starts"] = k.w.starts
 		extra["slowest_call_ms"] = k.slowest.Milliseconds()
 		pc := 0
